@@ -121,6 +121,8 @@ def run_shard(desc):
     for h in range(nhist):
         threaded = h % 3 == 2
         n = rnd.randint(200, 600) if not threaded else rnd.randint(80, 250)
+        if nhist == 1 and si >= 900:
+            threaded, n = False, (6000 if si == 900 else 12000)
         if threaded:
             # registrations first (they are part of every thread's input), then T threads with own contexts
             regs = rnd.sample(WORDS, rnd.randint(0, 5))
@@ -236,6 +238,7 @@ def run(rep, tier):
     common.build("release")
     nh = 48 if tier == "quick" else 1200
     shards = [(i, nh // 16, "release" if i % 2 else "verifdbg") for i in range(16)]
+    shards += [(900, 1, "release"), (901, 1, "verifdbg")]  # two long histories (thresholds that need thousands of evaluations)
     for part in common.pmap(run_shard, shards):
         rep.merge(part)
     rep.floor = 5000
